@@ -315,9 +315,13 @@ pub fn run(ctx: &Ctx) {
     ctx.assume("uniqueness over N samples only exposes sources with roughly < 2*log2(N) bits of entropy; entropy quality beyond that is assumed of getrandom");
     let hist = History::new();
     library_history(ctx, &hist);
-    cli_history(ctx, &hist);
+    if !crate::lib_only() {
+        cli_history(ctx, &hist);
+    }
     hist.entropy_screen(ctx);
-    strace_getrandom(ctx);
+    if !crate::lib_only() {
+        strace_getrandom(ctx);
+    }
     ctx.require("values recorded: ephemeral public key", 200);
     ctx.require("values recorded: payload key", 200);
     ctx.require("values recorded: locked-key salt", 50);
